@@ -310,6 +310,9 @@ def clone_value(v, memo: dict):
         n.oid = v.oid
         n.payload = clone_value(v.payload, memo)
         n.fields = {k: clone_value(x, memo) for k, x in v.fields.items()}
+        for extra in ("tuple_fields", "summary"):
+            if hasattr(v, extra):
+                setattr(n, extra, getattr(v, extra))
         return n
     if isinstance(v, FuncV) and v.closure is not None:
         return FuncV(v.info, v.closure.clone(memo))
@@ -387,6 +390,17 @@ def join(a: AVal, b: AVal) -> AVal:
             gen=a.gen | b.gen, rng=a.rng or b.rng, layout=a.layout if a.layout == b.layout else (), note=a.note,
             rowspan=a.rowspan if (b.rowspan is None or a.rowspan == b.rowspan) else (b.rowspan if a.rowspan is None else "?"),
         )
+    if isinstance(a, PartialV) and isinstance(b, PartialV):
+        # functools.partial objects built from the same expression at two evaluations: the same function with the same bound arguments
+        if join(a.func, b.func) is a.func and len(a.args) == len(b.args) and [k for k, _ in a.kwargs] == [k for k, _ in b.kwargs]:
+            args = tuple(join(x, y) for x, y in zip(a.args, b.args))
+            kws = tuple((k, join(x, y)) for (k, x), (_, y) in zip(a.kwargs, b.kwargs))
+            if not any(isinstance(x, Unk) for x in args) and not any(isinstance(x, Unk) for _, x in kws):
+                if all(x is y for x, y in zip(args, a.args)) and all(x is y for (_, x), (_, y) in zip(kws, a.kwargs)):
+                    return a  # nothing new: the fixpoint iteration must see the same value
+                return PartialV(a.func, args, kws)
+    if isinstance(a, FuncV) and isinstance(b, FuncV) and a.info is b.info and (a.closure is b.closure or a.closure is None or b.closure is None):
+        return a
     if isinstance(a, ObjV) and isinstance(b, ObjV):
         return join_objects(a, b)
     # a tensor or None (a slot being filled, an optional gradient)
@@ -486,6 +500,8 @@ def join_objects(a: "ObjV", b: "ObjV", depth: int = 0) -> AVal:
     o = ObjV(a.cls)
     o.oid = -root
     o.summary = True
+    if getattr(a, "tuple_fields", None):
+        o.tuple_fields = list(a.tuple_fields)
     for k in set(a.fields) | set(b.fields):
         fa, fb = a.fields.get(k), b.fields.get(k)
         if fa is None or fb is None:
